@@ -1,12 +1,15 @@
-(* C07 - Whitespace operations never lose, invent or reorder text. Proved so far (about the
-   model): the facts about CollapseSpace's final pass below. The preservation of the
-   non-whitespace clusters by Wrap, Justify (see C12_justify_line for code points), Align
-   (see C13: the kept clusters are copied verbatim) and Indent on seam-safe text is judged on
-   every generated case by the executable checkers check_C07_*; its general proof is not
-   in the development yet (DESIGN.md section 5). *)
+(* C07 - Whitespace operations never lose, invent or reorder text. Proved (about the model):
+   the facts about CollapseSpace's final pass, and CollapseSpace as a whole on clusters
+   (C07_collapse_clusters: the non-whitespace cluster sequence is kept, only single U+0020
+   remain as white space; C07_collapse_space_idempotent) for every classifier, under the
+   stated condition that no cluster can merge with a space placed next to it - without it
+   the property is false of the code (DESIGN.md section 7, KF1). For Justify see
+   C12_exact_width_even_gaps (the words are kept, only gaps grow), for Align C13 (the kept
+   clusters are copied verbatim). Wrap, Indent and the paragraph plumbing are judged on
+   every generated case by the executable checkers check_C07_*. *)
 From Coq Require Import List Bool ZArith Lia.
 Import ListNotations.
-From Rosed Require Import Base.Res Base.Str Gem.Segment Gem.GString Model.Manip Model.Table Proofs.C07P.
+From Rosed Require Import Base.Res Base.Str Gem.Segment Gem.GString Model.Manip Model.Table Proofs.SeamP Proofs.C07P Proofs.C07Q.
 Open Scope Z_scope.
 
 (* after CollapseSpace no two U+0020 are adjacent, for every text and separator *)
@@ -25,3 +28,29 @@ Print Assumptions C07_collapse_keeps_text.
 Theorem C07_collapse_idempotent : forall s, collapse_runs SP false (collapse_runs SP false s) = collapse_runs SP false s.
 Proof. exact (collapse_runs_idem SP). Qed.
 Print Assumptions C07_collapse_idempotent.
+
+(* CollapseSpace on clusters. t0 is the text with separators already turned into spaces.
+   The result's clusters are those of t0 with every white-space cluster replaced by U+0020 and
+   every U+0020 that follows another one dropped; hence the non-white-space clusters are the
+   same, in the same order, and the only white space left is single U+0020. *)
+Theorem C07_collapse_clusters : forall (C : Classifier) (K : ClassifierOk) (U : Upper) text sep r,
+  let t0 := if gis_empty sep then text else replace_all text sep [SP] in
+  safe_text t0 -> collapse_space text sep = Ok r ->
+  clusters r = dedup false (map normws (clusters t0)) /\
+  nonws (clusters r) = nonws (clusters t0) /\
+  Forall (fun c => wsc c = true -> c = [SP]) (clusters r) /\
+  safe_text r.
+Proof. intros C K U. exact collapse_space_clusters. Qed.
+Print Assumptions C07_collapse_clusters.
+
+Theorem C07_collapse_space_idempotent : forall (C : Classifier) (K : ClassifierOk) (U : Upper) text sep r sep2,
+  safe_text (if gis_empty sep then text else replace_all text sep [SP]) -> collapse_space text sep = Ok r ->
+  (if gis_empty sep2 then r else replace_all r sep2 [SP]) = r ->
+  collapse_space r sep2 = Ok r.
+Proof. intros C K U. exact collapse_space_idem. Qed.
+Print Assumptions C07_collapse_space_idempotent.
+
+(* the hypothesis is met by every text of plain code points, e.g. printable ASCII *)
+Theorem C07_plain_text_safe : forall (C : Classifier) (K : ClassifierOk) rs, Forall plain rs -> safe_text rs.
+Proof. intros C K. exact plain_text_safe. Qed.
+Print Assumptions C07_plain_text_safe.
